@@ -25,7 +25,13 @@ def _call_periodic(loop: asyncio.BaseEventLoop, name, interval, callback):
     start = loop.time()
 
     def run(handle, when=None, fn=callback):
-        r = fn()
+        try:
+            r = fn()
+        except BaseException:
+            # the loop does not re-arm a callback that raised: the timer is dead, and its handle must say so
+            # (.timerc of it returns 0 from now on)
+            handle.delegate = None
+            raise
         if r:
             if handle.delegate is None:
                 # cancelled from inside the callback: do not re-arm
